@@ -1,7 +1,7 @@
 (* C01: the k-mer iterator yields exactly the valid windows, in order, 2-bit encoded.
    This file only pins statements; proofs live in Proof/. *)
 From Coq Require Import NArith List.
-From KT Require Import Gen.Generated Gen.Alphabet Gen.GeneratedFacts Model.Kmer Proof.KmerProof.
+From KT Require Import Gen.Generated Gen.Alphabet Gen.FactsBase Gen.FactTableKmer Model.Kmer Proof.KmerProof.
 Import ListNotations.
 Open Scope N_scope.
 
